@@ -25,14 +25,29 @@ from y0.dsl import (
 from y0.graph import NxMixedGraph
 
 PREFIX = "V"
+# naming schemes: node i of the spec is V<i> by default; "latent-like" names it u_<i-1>, the names the library itself
+# gives to the latent parents of bidirected edges (y0.graph.DEFULT_PREFIX), so that an observed node may look like one
+_NAMING = {"scheme": "V"}
+
+
+def set_naming(scheme: str) -> None:
+    if scheme not in ("V", "latent-like"):
+        raise ValueError(scheme)
+    _NAMING["scheme"] = scheme
 
 
 def var(i: int) -> Variable:
+    if _NAMING["scheme"] == "latent-like":
+        return Variable(f"u_{i - 1}")
     return Variable(f"{PREFIX}{i}")
 
 
 def num(v: Any) -> int:
     name = v.name if isinstance(v, Variable) else str(v)
+    if _NAMING["scheme"] == "latent-like":
+        if not name.startswith("u_") or not name[2:].isdigit():
+            raise KeyError(name)
+        return int(name[2:]) + 1
     if not name.startswith(PREFIX) or not name[len(PREFIX) :].isdigit():
         raise KeyError(name)
     return int(name[len(PREFIX) :])
